@@ -182,6 +182,12 @@ def gen_gemv(rng, idx, force=None):
     xo, yo = rng.randint(0, 2), rng.randint(0, 2)
     x = gen_vec(rng, xo + 1 + (lenx - 1) * abs(incx) + rng.randint(0, 2), A["style"])
     y = gen_vec(rng, yo + 1 + (leny - 1) * abs(incy) + rng.randint(0, 2), A["style"], zeros=0.05)
+    if bk == "zero" and leny > 0 and rng.random() < 0.5:
+        # "when beta is zero y need not be set on input": left-over NaN / Inf in the addressed entries must be overwritten
+        ky = 0 if incy > 0 else -(leny - 1) * incy
+        for i in range(leny):
+            if rng.random() < 0.6:
+                y[yo + ky + i * incy] = rng.choice([float("nan"), float("inf"), float("-inf")])
     return {"op": "gemv", "id": "g%d" % idx, "tr": tr, "alpha": alpha, "beta": beta, "ak": ak, "bk": bk,
             "xo": xo, "incx": incx, "yo": yo, "incy": incy, "A": A, "x": x, "y": y, "fmt": "NC"}
 
@@ -831,9 +837,13 @@ def kp_gemv(c, yres, P, conjugate_for_C=True, collect=None):
     for i in range(leny):
         iy = c["yo"] + ky + i * incy
         touched.add(iy)
-        y0 = CQ.of(c["y"][iy])
+        yin = c["y"][iy]
+        y0 = CQ() if be.iszero() else CQ.of(yin)        # beta = 0: y is not read (it may hold anything, NaN included)
         ex = al * acc[i] + be * y0
         bound = gamma((cnt[i] + 3) * (4 if P["ncomp"] == 2 else 1), P["u"]) * (al.abs1() * mag[i] + be.abs1() * y0.abs1())
+        yo_ = yres[iy]
+        if not (math.isfinite(yo_.real) and math.isfinite(yo_.imag if isinstance(yo_, complex) else 0.0)):
+            return "y[%d]: got %r (input entry %r, beta %r)" % (iy, yo_, yin, c["beta"])
         err = (CQ.of(yres[iy]) - ex).abs1()
         if err > bound:
             return "y[%d]: got %r, |err|=%.3e > bound %.3e" % (iy, yres[iy], float(err), float(bound))
@@ -1152,7 +1162,8 @@ def to_q(c):
 def qmodel_check(ctx, drv, cases, cres):
     """the extracted Qc instance (the object of the exact theorems) against the dense definition evaluated independently
     in Python, and its status against the C status"""
-    sel = [c for c in cases if c["op"] == "gemv" and c.get("fmt", "NC") == "NC" and tch(c["tr"]) != "cX" and c["incx"] and c["incy"]][:60]
+    sel = [c for c in cases if c["op"] == "gemv" and c.get("fmt", "NC") == "NC" and tch(c["tr"]) != "cX" and c["incx"] and c["incy"]
+           and all(math.isfinite(v.real) and math.isfinite(v.imag if isinstance(v, complex) else 0.0) for v in c["y"])][:60]    # rationals have no NaN
     sel += sorted([c for c in cases if c["op"] == "trsv" and c["tr"] in "NT" and c["uplo"] in "LU" and c["diag"] in "UN"],
                   key=lambda c: c["F"]["n"])[:24]
     rc, out, err = vf.sh2([drv], inp="".join(to_q(c) for c in sel), timeout=600)
